@@ -99,6 +99,19 @@ def ampConsSpec (fl : List Rat) (c : Nat) : F :=
   let v := F.nanmin [ratioMinMax (g (2*c)) (g (2*c + 1)), ratioMinMax (g (2*c + 1)) (g (2*c + 2)), ratioMinMax (g (2*c - 1)) (g (2*c))]
   if v.neg? then .fin 0 else v
 
+/-- directional variants: `next` looks only at the cycle's own pair and the pair with the following flank,
+`last` at the own pair and the pair with the preceding flank (used by edge recomputation). -/
+def ampConsSpecDir (dir : Direction) (fl : List Rat) (c : Nat) : F :=
+  let g := fun i => fl.getD i 0
+  let cur := ratioMinMax (g (2*c)) (g (2*c + 1))
+  let next := ratioMinMax (g (2*c + 1)) (g (2*c + 2))
+  let last := ratioMinMax (g (2*c - 1)) (g (2*c))
+  let v := match dir with
+    | .both => F.nanmin [cur, next, last]
+    | .next => F.nanmin [cur, next]
+    | .last => F.nanmin [cur, last]
+  if v.neg? then .fin 0 else v
+
 /-- strictly increasing / decreasing step counts, stated directly. -/
 def stepFractionSpec (up : Bool) (w : List Rat) : F :=
   if w.length < 2 then .nan
